@@ -76,7 +76,14 @@ fn _random_mod_order() -> ClResult<BIG> {
     // AMCL recommends to initialise from at least 128 bytes, check doc for `RAND.seed`
     rng.seed(ENTROPY, &seed);
     #[cfg(feature = "verif")]
-    crate::verif::tape_record("random_mod_order", ENTROPY * 8, String::new);
+    {
+        // record-only: the drawn scalar (hexadecimal) for the correspondence harness
+        let res = BIG::randomnum(&ORDER, &mut rng);
+        let mut shown = res;
+        crate::verif::tape_record("random_mod_order", ENTROPY * 8, || shown.to_hex());
+        return Ok(res);
+    }
+    #[allow(unreachable_code)]
     Ok(BIG::randomnum(&ORDER, &mut rng))
 }
 
